@@ -24,7 +24,7 @@ RULE = ("Hypothesis: general graphs x {class targets: every drawn subset, each c
         "(labels, instance counts, every figure, key sets).  Non-trivial: the selection is a proper non-empty subset of the typed nodes, "
         "or a selector with a wildcard / prefixed name / non-default instantiation property; distinct by SHA-1 of the case.")
 ASSUMPTIONS = c01.ASSUMPTIONS + ["vf/selectors.py implements the selector semantics stated in the property (BGP join, set of distinct answers)"]
-BUDGET = {"quick": {"examples": 10000, "wall": 180}, "thorough": {"examples": 300000, "wall": 5400}}
+BUDGET = {"quick": {"examples": 10000, "wall": 180}, "thorough": {"examples": 150000, "wall": 900}}
 FLOORS = {"nontrivial": 0.3, "mode:sm": 0.25, "mode:classes": 0.25, "sel:focus": 0.1, "sel:sparql": 0.08, "sel:node": 0.08}
 KNOWN = ("C01-NONLIT", "C01-NONLIT-KLS", "C02-MIXEDKIND", "C02-GONEREF")
 NSD = {"http://ex.org/": "ex", "http://ex.org/ns/": "ns-1", "http://other.org/v#": "v.x", "https://data.example/": "d",
